@@ -1,4 +1,56 @@
-(* placeholder until the theorems land *)
-From LV Require Import Base.Bytes Model.Response.
-Theorem C15_placeholder : True. Proof. exact I. Qed.
-Print Assumptions C15_placeholder.
+(* C15  Server replies are framed and classified per RFC 5321 4.2.  Statements only. *)
+From LV Require Import Base.Bytes Base.Utf8 Base.Res Model.Response Model.ServerInfo Model.Client
+  Proofs.ResponseProofs Proofs.ClientProofs.
+
+(* Soundness: whatever parse_response accepts is exactly one RFC 5321 4.2 reply - continuation
+   lines `code "-" text CRLF` in order, all with the same code, then `code SP text CRLF` or the
+   bare `code CRLF` - and `rest` is exactly what followed it: nothing skipped, nothing reused.
+   No text contains CRLF; the code is three digits [2-5][0-5][0-9]. *)
+Theorem C15_sound : forall (b : bytes) (r : response) (rest : bytes),
+  parse_response b = Done r rest ->
+  exists (init : list bytes) (last : bytes) (bare : bool),
+    rlines r = init ++ [last] /\
+    b = flat_map (fun t => render_cont (rcode r, t)) init ++ render_last bare (rcode r) last ++ rest /\
+    (bare = true -> last = []) /\
+    code_ok (rcode r) /\ Forall no_crlf (rlines r).
+Proof. exact parse_response_sound. Qed.
+
+(* Completeness / round trip: every reply value with a valid code, at least one line and no
+   CRLF inside a line, rendered on the wire and followed by anything, parses back to an equal
+   value and leaves what followed. *)
+Theorem C15_roundtrip : forall (r : response) (rest : bytes),
+  reply_ok r -> parse_response (wire_of r ++ rest) = Done r rest.
+Proof. exact parse_response_complete. Qed.
+
+(* The three digits alone decide the class; text plays no part.  What read_response can return:
+   a positive reply (first digit 2 or 3), or an error that is transient with the code and the
+   concatenated text iff the first digit is 4, permanent iff 5, or a response/network error
+   without a code.  It never panics, for any buffered input. *)
+Theorem C15_classes : forall s : cst, reply_verdict (fst (read_response s)).
+Proof. exact read_response_verdict. Qed.
+
+(* Reading from a stream the peer has closed never waits: the result is not a timeout. *)
+Theorem C15_eof_no_wait : forall (s : cst),
+  closed s = true -> is_timeout_err (fst (read_response s)) = false.
+Proof. intros s H. apply read_loop_closed. exact H. Qed.
+
+(* read_response touches nothing but the receive buffer *)
+Theorem C15_read_only_consumes : forall s : cst, same_ctl s (snd (read_response s)).
+Proof. exact read_response_ctl. Qed.
+
+Example C15_example_multiline :
+  parse_response [50;53;48;45;97;13;10;50;53;48;32;98;13;10;50;50;48] =
+  Done (mkResp (mkCode 2 5 0) [[97]; [98]]) [50;50;48].
+Proof. reflexivity. Qed.
+Example C15_example_bare : parse_response [50;53;48;13;10] = Done (mkResp (mkCode 2 5 0) [[]]) [].
+Proof. reflexivity. Qed.
+Example C15_example_mixed : parse_response [50;53;48;45;97;13;10;50;53;49;32;98;13;10] = Failure.
+Proof. reflexivity. Qed.
+Example C15_reply_ok_inhabited : reply_ok (mkResp (mkCode 2 5 0) [[97]; [98]]).
+Proof. repeat split; try discriminate; cbn; try lia; repeat constructor. Qed.
+
+Print Assumptions C15_sound.
+Print Assumptions C15_roundtrip.
+Print Assumptions C15_classes.
+Print Assumptions C15_eof_no_wait.
+Print Assumptions C15_read_only_consumes.
